@@ -79,4 +79,19 @@ def runEq (unit : Bool) (payload : String) : String × String × String :=
     (m, s, k)
   | _ => ("BADCASE", "BADCASE", "")
 
+/-- stream `eqseqs`: payload `<kind> | A [ a… ] | A [ b… ] | <tag>` — a `[]Stack` / `[n]Stack` / `[]*Stack` / `[]Condition`
+leaf inside `And()`, compared in both directions (C05, repair F33) -/
+def runEqSeqs (payload : String) : String × String × String :=
+  match payload.splitOn " | " with
+  | _kind :: sa :: sb :: rest =>
+    let tag := rest.headD ""
+    let as := match (parseVal (words sa)).1 with | .anys xs => xs | _ => []
+    let bs := match (parseVal (words sb)).1 with | .anys xs => xs | _ => []
+    let v (b : Bool) := if b then "eq" else "ne"
+    let m := s!"ab={v (handlesEqual interpEq as bs)} ba={v (handlesEqual interpEq bs as)}"
+    let dom := as.all (fun a => a.isHandle && EqSpec.inDomain a) && bs.all (fun a => a.isHandle && EqSpec.inDomain a)
+    let s := if dom then s!"ab={v (EqSpec.sameDescL as bs)} ba={v (EqSpec.sameDescL bs as)}" else m
+    (m, s, s!"{if dom then "dom" else "ood"} {tag}")
+  | _ => ("BADCASE", "BADCASE", "")
+
 end Stackage.Driver
